@@ -109,15 +109,15 @@ pub struct Mix {
 impl Mix {
     pub const GENERAL: Mix = Mix {
         start960: 6, dfrc: 6, corpus: 10, scatter: 14, sound: 12, pins: 12, ep: 12, castle: 14, promo: 6, mating: 5,
-        maxbatch: 1, sanamb: 2, fewmovers: 3, rookcap: 4, epdisc: 4, dense: 2, special: 3, maxrec: 1, special2: 3, heavy: 1, walk_pct: 35, walk_len: 60, null_pct: 8, clock_edge_pct: 15,
+        maxbatch: 1, sanamb: 2, fewmovers: 3, rookcap: 4, epdisc: 4, dense: 2, special: 3, maxrec: 1, special2: 3, heavy: 2, walk_pct: 35, walk_len: 60, null_pct: 8, clock_edge_pct: 15,
     };
     pub const HISTORIES: Mix = Mix {
         start960: 10, dfrc: 10, corpus: 10, scatter: 6, sound: 10, pins: 14, ep: 12, castle: 14, promo: 6, mating: 6,
-        maxbatch: 1, sanamb: 1, fewmovers: 3, rookcap: 4, epdisc: 4, dense: 2, special: 3, maxrec: 1, special2: 3, heavy: 1, walk_pct: 90, walk_len: 120, null_pct: 15, clock_edge_pct: 20,
+        maxbatch: 1, sanamb: 1, fewmovers: 3, rookcap: 4, epdisc: 4, dense: 2, special: 3, maxrec: 1, special2: 3, heavy: 2, walk_pct: 90, walk_len: 120, null_pct: 15, clock_edge_pct: 20,
     };
     pub const ROOTS_ONLY: Mix = Mix {
         start960: 4, dfrc: 4, corpus: 12, scatter: 16, sound: 14, pins: 12, ep: 12, castle: 14, promo: 6, mating: 4,
-        maxbatch: 1, sanamb: 1, fewmovers: 3, rookcap: 4, epdisc: 4, dense: 2, special: 3, maxrec: 1, special2: 3, heavy: 1, walk_pct: 10, walk_len: 20, null_pct: 5, clock_edge_pct: 10,
+        maxbatch: 1, sanamb: 1, fewmovers: 3, rookcap: 4, epdisc: 4, dense: 2, special: 3, maxrec: 1, special2: 3, heavy: 2, walk_pct: 10, walk_len: 20, null_pct: 5, clock_edge_pct: 10,
     };
 }
 
@@ -237,7 +237,7 @@ impl<'c> Driver<'c> {
                     16 => gen::special_class_case(&mut cx.rng),
                     17 => (gen::max_record_case(&mut cx.rng), "max-record"),
                     18 => gen::special_class_case2(&mut cx.rng),
-                    19 => (gen::heavy_material_case(&mut cx.rng), "heavy-material"),
+                    19 => if cx.rng.chance(1, 2) { (gen::heavy_material_case(&mut cx.rng), "heavy-material") } else { (gen::stacked_rays_case(&mut cx.rng), "stacked-rays") },
                     _ => (gen::rook_right_capture_case(&mut cx.rng), "rook-right-capture"),
                 };
                 // both entry routes are used; which one hands out the board alternates
